@@ -36,8 +36,14 @@ Definition tag_of (ex : rlist) (b : binspec) : list Z :=
     | None => [0]
     end
   end.
+(* CoverpointModel.equals also compares the dedicated ignore / illegal bin models (their number and ranges): two
+   coverpoints with the same regular bins but other exclusions are different types *)
+Definition special_tags (c : cpspec) : list Z :=
+  flat_map (fun r => -77 :: flat_map (fun x => [fst x; snd x]) r) (build_special (cp_ignore c)) ++
+  flat_map (fun r => -78 :: flat_map (fun x => [fst x; snd x]) r) (build_special (cp_illegal c)).
 Definition cp_tags (c : cpspec) : list Z :=
   let ex := exclude_of c in
+  special_tags c ++
   match cp_kind c with
   | KBins bs =>
     flat_map fst (filter (fun p => match snd p with Some m => negb (is_nil m) | None => true end)
